@@ -28,9 +28,11 @@ import (
 // http.Clients, whose requests end up here. Every call is logged with its URL,
 // which identifies the controller instance (the URL changes with every spec version).
 type HookRouter struct {
-	mu    sync.Mutex
-	Calls []HookCall
-	sim   *vs.Server
+	mu sync.Mutex
+	// HoldCustomize, when set, is called (and may block) before a customize answer that names related resources is returned.
+	HoldCustomize func()
+	Calls         []HookCall
+	sim           *vs.Server
 }
 
 type HookCall struct {
@@ -55,6 +57,12 @@ func (h *HookRouter) RoundTrip(req *http.Request) (*http.Response, error) {
 	}
 	if strings.HasSuffix(req.URL.Path, "/customize-gadgets") {
 		resp = map[string]any{"relatedResources": []any{map[string]any{"apiVersion": "other.io/v1beta1", "resource": "gadgets"}}}
+		h.mu.Lock()
+		hold := h.HoldCustomize
+		h.mu.Unlock()
+		if hold != nil {
+			hold() // a slow customize webhook
+		}
 	}
 	b, _ := json.Marshal(resp)
 	return &http.Response{StatusCode: 200, Status: "200 OK", Proto: "HTTP/1.1", ProtoMajor: 1, ProtoMinor: 1,
@@ -319,19 +327,31 @@ func PropC20(c *vs.Case, kind string, env *C20Env, drv C20Driver) error {
 	setGate := func(g chan struct{}) { gateMu.Lock(); gate = g; gateMu.Unlock() }
 	var gateWaiters int32
 	gatedName := ""
+	gateOnHook := false // false: the related LIST hangs; true: the customize webhook hangs
 	env.W.Sim.Before = func(r *vs.Request) *vs.Fault {
-		if g := getGate(); g != nil && r.Verb == "list" && r.Def.Resource == "gadgets" {
+		if g := getGate(); g != nil && !gateOnHook && r.Verb == "list" && r.Def.Resource == "gadgets" {
 			atomic.AddInt32(&gateWaiters, 1)
 			<-g
 		}
 		return nil
 	}
+	env.Router.mu.Lock()
+	env.Router.HoldCustomize = func() {
+		if g := getGate(); g != nil && gateOnHook {
+			atomic.AddInt32(&gateWaiters, 1)
+			<-g
+		}
+	}
+	env.Router.mu.Unlock()
 	defer func() {
 		if g := getGate(); g != nil {
 			close(g)
 			setGate(nil)
 		}
 		env.W.Sim.Before = nil
+		env.Router.mu.Lock()
+		env.Router.HoldCustomize = nil
+		env.Router.mu.Unlock()
 	}()
 	for ev := 0; ev < nEvents; ev++ {
 		name := names[c.Int(len(names))]
@@ -442,17 +462,35 @@ func PropC20(c *vs.Case, kind string, env *C20Env, drv C20Driver) error {
 			stopped[prev.urlPrefix(name)] = time.Time{} // stamped after Reconcile returns
 		}
 		if gatedName == "" && kind == "composite" && model[name] != nil && model[name].Variant == "customize-related" && (prev == nil || prev.Version != model[name].Version) && ev+1 < nEvents && c.Bool() {
+			gateOnHook = c.Bool()
 			setGate(make(chan struct{}))
 			atomic.StoreInt32(&gateWaiters, 0)
 			gatedName = name
-			what += " [related LIST hangs]"
-			c.Class("stop-during-related-informer-sync")
+			if gateOnHook {
+				what += " [customize webhook hangs]"
+				c.Class("stop-during-customize-call")
+			} else {
+				what += " [related LIST hangs]"
+				c.Class("stop-during-related-informer-sync")
+			}
 		} else if forcedStop {
 			gatedName = ""
 		}
 		// reconcile
 		var recErr error
 		panicked := ""
+		if forcedStop && gateOnHook {
+			// Stop() waits for the worker, and the worker waits for its webhook: the webhook answers
+			// a moment after the stop has begun
+			if g := getGate(); g != nil {
+				setGate(nil)
+				go func() {
+					time.Sleep(30 * time.Millisecond)
+					close(g)
+				}()
+				nontrivial = true
+			}
+		}
 		func() {
 			defer func() {
 				if p := recover(); p != nil {
